@@ -4,6 +4,7 @@ import (
 	"bytes"
 	"fmt"
 
+	pipeline "github.com/buildkite/go-pipeline"
 	"verifharness/sx"
 )
 
@@ -432,6 +433,36 @@ func init() {
 				}
 				stat("C14", "different-pairs")
 				fmt.Fprintf(out, "CASE\tC14\t%s\t%s\t1\n", sx.String(vs), sx.String(sx.A(string(p))))
+			}
+			// typed fields are what is signed, also when an unknown field of the same name sits in the inline map
+			// (only a programmatically built step can have one): two steps that differ in the typed matrix setup
+			// and carry the same shadowing entry must not collide
+			if st, _, err := stepFromDoc(c.doc); err == nil && st.Matrix != nil {
+				mk := func(extraDim bool) *pipeline.CommandStep {
+					a := *st
+					m := *st.Matrix
+					m.Setup = pipeline.MatrixSetup{}
+					for d, vs := range st.Matrix.Setup {
+						m.Setup[d] = append([]string{}, vs...)
+					}
+					if extraDim {
+						m.Setup["zz_new_dimension"] = []string{"v"}
+					}
+					m.RemainingFields = map[string]any{"setup": "shadow"}
+					for k, v := range st.Matrix.RemainingFields {
+						m.RemainingFields[k] = v
+					}
+					a.Matrix = &m
+					return &a
+				}
+				_, pa, ea := signPayload(key, mk(false), c.repo, c.penv)
+				_, pb, eb := signPayload(key, mk(true), c.repo, c.penv)
+				if ea == nil && eb == nil {
+					if bytes.Equal(pa, pb) {
+						oracleFail("C14", "collision-shadowed-field", cs, fmt.Sprintf("two steps whose typed matrix setups differ (one has an extra dimension) and whose matrices carry the same unknown field named setup give the same payload: %s", pa))
+					}
+					stat("C14", "shadowed-pairs")
+				}
 			}
 			// a different algorithm name gives a different payload
 			other := keys[(i+1)%len(keys)]
